@@ -101,6 +101,15 @@ def run(ctx):
         ctx.check(ok, "GUARD", f"{g.qualname} / GUARD / rhs store only in dynamic mode ({T.show(T.alpha(e.key))[:40]})", ctx.where(g, e.node),
                   "dominated by `timeseries and b_matrix in {velocity, acceleration}`",
                   f"rhs entry written under {[T.show(c)[:80] for c in e.conds()]} - also reachable in static mode")
+    # ... and static mode must get its zeros: no `raise` of the function is reachable outside the dynamic-mode condition (the
+    # NotImplementedError for an unknown b_matrix sits behind `timeseries and b_matrix in {...}`, where it is dead)
+    for e in [x for x in s0.events if x.kind == "raise"]:
+        have = set(e.conds())
+        ctx.check(ts in have and (dyn in have or T.cmp("Eq", opt, ("str", "velocity")) in have), "GUARD",
+                  f"{g.qualname} / GUARD / static mode returns zeros, it does not raise (`{g.module.line(e.node.lineno)[:50]}`)", ctx.where(g, e.node),
+                  "every raise is dominated by the dynamic-mode condition",
+                  f"`{g.module.line(e.node.lineno)[:70]}` is reachable under {[T.show(c)[:60] for c in e.conds()]}: a static solve that is handed a time series raises instead of "
+                  f"getting a zero right-hand side")
     init = [e for e in s0.events if e.kind == "assign" and "$" + e.name == bname and not e.loops() and not e.conds()]
     okz = bool(init) and init[0].value[0] == "call" and init[0].value[1] == "numpy.zeros"
     ctx.check(okz, "GUARD", f"{g.qualname} / GUARD / rhs starts as zeros", ctx.where(g), "b = np.zeros(...)", "the rhs vector does not start as zeros")
